@@ -66,7 +66,9 @@ type c02VP struct {
 	Aud       []string  `json:"aud"`
 	Nonce     string    `json:"nonce"`
 	Challenge string    `json:"challenge"`
-	Verifies  bool      `json:"verifies"`
+	Verifies  bool      `json:"verifies"` // the VerifyVP(vp, true, true, nil) verdict = sig_ok && vcs_ok
+	SigOK     *bool     `json:"sig_ok,omitempty"` // presentation signature verdict (absent in old corpus files: = verifies)
+	VCsOK     *bool     `json:"vcs_ok,omitempty"` // verdict on the contained credentials (revoked / expired / untrusted): only asked for with verifyVCs
 	JWT       bool      `json:"jwt,omitempty"`
 }
 
@@ -158,7 +160,8 @@ type c02World struct {
 	w        *Wrapper
 	db       *storage.VerifSessionDB
 	shiftMs  int64
-	verdicts map[string]bool // VP id -> VerifyVP verdict
+	verdicts map[string]bool // VP id -> presentation signature verdict
+	vcVerdicts map[string]bool // VP id -> verdict on its credentials
 	tokNames map[string]string
 	tokReal  map[string]string
 	codeNames map[string]string
@@ -177,7 +180,7 @@ const c02PublicURL = "https://as.example"
 
 func c02NewWorld(t *testing.T, cfg c02Op) *c02World {
 	ctrl := gomock.NewController(t)
-	w := &c02World{t: t, ctrl: ctrl, verdicts: map[string]bool{}, tokNames: map[string]string{}, tokReal: map[string]string{},
+	w := &c02World{t: t, ctrl: ctrl, verdicts: map[string]bool{}, vcVerdicts: map[string]bool{}, tokNames: map[string]string{}, tokReal: map[string]string{},
 		codeNames: map[string]string{}, codeReal: map[string]string{}, nonceNames: map[string]string{}, nonceReal: map[string]string{}, dpopJkt: map[string]string{}, defs: map[int]pe.PresentationDefinition{}}
 	w.db = storage.NewVerifSessionDB()
 	engine := storage.NewMockEngine(ctrl)
@@ -206,6 +209,10 @@ func c02NewWorld(t *testing.T, cfg c02Op) *c02World {
 			}
 			if ok, known := w.verdicts[id]; !known || !ok {
 				return nil, errors.New("scripted: verification failed")
+			}
+			// the credentials are only looked at when the caller asks for it (a revoked credential passes otherwise)
+			if verifyVCs && !w.vcVerdicts[id] {
+				return nil, errors.New("scripted: credential revoked/expired")
 			}
 			// the time window of the JSON-LD proof: the real ProofOptions.ValidAt, called the way
 			// signatureVerifier.jsonldProof calls it (current time, verifier maxSkew) - on the virtual clock
@@ -467,10 +474,17 @@ func (w *c02World) pexVerdicts(scope string, assertion, submission *string) []in
 	return res
 }
 
-func (w *c02World) execS2S(op *c02Op) string {
-	for _, v := range op.VPs {
-		w.verdicts[v.ID] = v.Verifies
+func (w *c02World) script(vps []c02VP) {
+	for _, v := range vps {
+		w.verdicts[v.ID], w.vcVerdicts[v.ID] = v.Verifies, true
+		if v.SigOK != nil && v.VCsOK != nil {
+			w.verdicts[v.ID], w.vcVerdicts[v.ID] = *v.SigOK, *v.VCsOK
+		}
 	}
+}
+
+func (w *c02World) execS2S(op *c02Op) string {
+	w.script(op.VPs)
 	hdr, d := w.dpopHeader(op.DPoP)
 	op.DPoP = d
 	op.Pex = w.pexVerdicts(op.Scope, op.Assertion, op.Submission)
@@ -505,8 +519,10 @@ func (w *c02World) execS2S(op *c02Op) string {
 
 func (w *c02World) execIntrospect(op *c02Op) string {
 	real := op.Token
-	if r, ok := w.tokReal[op.Token]; ok {
-		real = r
+	for _, m := range []map[string]string{w.tokReal, w.codeReal, w.nonceReal} {
+		if r, ok := m[op.Token]; ok {
+			real = r
+		}
 	}
 	op.T = w.nowNs()
 	return c02Recover(func() string {
@@ -672,8 +688,10 @@ func (w *c02World) execProbe(op *c02Op) string {
 }
 
 func (w *c02World) realCode(name string) string {
-	if r, ok := w.codeReal[name]; ok {
-		return r
+	for _, m := range []map[string]string{w.codeReal, w.nonceReal, w.tokReal} {
+		if r, ok := m[name]; ok {
+			return r
+		}
 	}
 	return name
 }
@@ -726,9 +744,7 @@ func (w *c02World) execSeed(op *c02Op) string {
 }
 
 func (w *c02World) execAuthResp(op *c02Op) string {
-	for _, v := range op.VPs {
-		w.verdicts[v.ID] = v.Verifies
-	}
+	w.script(op.VPs)
 	op.Pex = []int{}
 	// PEX verdicts of this submission + envelope against every definition of the world (the model looks up the one it needs)
 	if op.Assertion != nil && op.Submission != nil {
@@ -755,6 +771,7 @@ func (w *c02World) execAuthResp(op *c02Op) string {
 		body.PresentationSubmission = op.Submission
 	}
 	op.T = w.nowNs()
+	defer func() { w.verifyArgsBad = false }()
 	return c02Recover(func() string {
 		resp, err := w.w.HandleAuthorizeResponse(context.Background(), HandleAuthorizeResponseRequestObject{SubjectID: op.Subject, Body: &body})
 		if err != nil {
@@ -898,7 +915,8 @@ type c02Gen struct {
 var c02ClaimNames = []string{"org_name", "org_city", "role", "level", "cnf", "aud", "iss", "client_id", "scope", "exp", "iat", "active", "sub",
 	"vps", "presentation_definitions", "presentation_submissions", "jti", "nbf"}
 
-var c02Holders = []string{"did:web:holder.example:h1", "did:web:holder.example:h2", "did:web:holder.example:h3"}
+// h1 is a textual prefix of h12 (a DID comparison weakened to a prefix match must not go unnoticed)
+var c02Holders = []string{"did:web:holder.example:h1", "did:web:holder.example:h12", "did:web:holder.example:h2", "did:web:holder.example:h3"}
 
 func (g *c02Gen) pick(l []string) string { return l[g.rng.Intn(len(l))] }
 
@@ -1004,6 +1022,7 @@ type c02VPSpec struct {
 	Nonce     *string
 	Challenge *string
 	Verifies  bool
+	VCRevoked bool     // a contained credential is revoked/expired: VerifyVP fails iff it is asked to verify the credentials
 	NoProof   bool
 	JWT       bool     // JWT presentation (unsigned compact JWS; the verifier is scripted): times are whole seconds
 	AudExtra  bool     // JWT: aud is an array with a second, foreign audience
@@ -1105,7 +1124,7 @@ func (v c02VPSpec) json() string {
 
 // abstract gives the model's view of the presentation - by construction, not by asking the code under test
 func (v c02VPSpec) abstract() c02VP {
-	a := c02VP{ID: v.ID, Verifies: v.Verifies, Aud: []string{}}
+	a := c02VP{ID: v.ID, Verifies: v.Verifies && !v.VCRevoked, SigOK: c02Ptr(v.Verifies), VCsOK: c02Ptr(!v.VCRevoked), Aud: []string{}}
 	if v.NoProof {
 		// no proof: no dates, no signer, nothing
 		for range v.Creds {
@@ -1272,7 +1291,7 @@ func c02S256(verifier string) string {
 var c02AuthDefects = []string{"missing-state", "unknown-state", "missing-vp_token", "garbage-assertion", "other-tenant", "wrong-challenge",
 	"foreign-challenge", "missing-challenge", "two-challenges", "signer-not-subject", "mixed-subjects", "mixed-vps", "wrong-audience",
 	"verify-fails", "unfulfilled", "foreign-definition", "forged-submission", "missing-submission", "garbage-submission", "stale",
-	"empty-envelope", "empty-vp-between"}
+	"empty-envelope", "empty-vp-between", "revoked-credential"}
 
 var c02CodeDefects = []string{"missing-code", "bogus-code", "missing-verifier", "wrong-verifier", "missing-client_id", "wrong-client_id",
 	"unknown-subject", "bad-dpop"}
@@ -1310,10 +1329,7 @@ func (g *c02Gen) authResponse(sess *c02GenSession, defects []string, now int64) 
 	target := sess.Spec.Required[g.rng.Intn(len(sess.Spec.Required))]
 	d := g.defs[target.Key]
 	holder := g.pick(c02Holders)
-	other := c02Holders[0]
-	if other == holder {
-		other = c02Holders[1]
-	}
+	other := g.otherHolder(holder)
 	nonce := sess.Nonces[len(sess.Nonces)-1]
 	if g.rng.Intn(6) == 0 {
 		nonce = sess.Nonces[g.rng.Intn(len(sess.Nonces))] // possibly a burned one
@@ -1389,6 +1405,9 @@ func (g *c02Gen) authResponse(sess *c02GenSession, defects []string, now int64) 
 	}
 	if has("verify-fails") {
 		vps[g.rng.Intn(len(vps))].Verifies = false
+	}
+	if has("revoked-credential") {
+		vps[g.rng.Intn(len(vps))].VCRevoked = true
 	}
 	if has("stale") {
 		m.Created, m.Expires = c02Ptr(now-60000), c02Ptr(now-30000)
@@ -1514,18 +1533,34 @@ func (g *c02Gen) codeRequest(defects []string) c02Op {
 	}
 	if has("bogus-code") {
 		op.Code = c02Ptr("bogus-code")
+		// a value that lives in ANOTHER session store: a nonce, a state, an access token
+		switch r := g.rng.Intn(4); {
+		case r == 0 && len(g.sessions) > 0:
+			sess := g.sessions[g.rng.Intn(len(g.sessions))]
+			op.Code = c02Ptr(sess.Nonces[g.rng.Intn(len(sess.Nonces))])
+		case r == 1 && len(g.sessions) > 0:
+			op.Code = c02Ptr(g.sessions[g.rng.Intn(len(g.sessions))].State)
+		case r == 2 && len(g.issued) > 0:
+			op.Code = c02Ptr(g.issued[g.rng.Intn(len(g.issued))])
+		}
 	}
 	if has("missing-verifier") {
 		op.Verifier = nil
 	}
 	if has("wrong-verifier") {
-		op.Verifier = c02Ptr(verifier + "x")
+		op.Verifier = c02Ptr(g.nearMiss(verifier))
+		if g.rng.Intn(4) == 0 {
+			op.Verifier = c02Ptr("")
+		}
 	}
 	if has("missing-client_id") {
 		op.ClientID = nil
 	}
 	if has("wrong-client_id") {
 		op.ClientID = c02Ptr("https://client.example/oauth2/mallory")
+		if g.rng.Intn(2) == 0 {
+			op.ClientID = c02Ptr(g.nearMiss(client))
+		}
 	}
 	if has("unknown-subject") {
 		op.Subject = "ghost"
@@ -1579,7 +1614,7 @@ func (g *c02Gen) subsetOf(pool []string, maxN int) []string {
 var c02Defects = []string{"wrong-audience", "overlong", "missing-expiry", "reused-nonce", "missing-nonce", "signer-not-subject",
 	"mixed-subjects", "mixed-vps", "unfulfilled", "foreign-definition", "forged-submission", "verify-fails", "wrong-scope",
 	"unknown-subject", "bad-dpop", "garbage-assertion", "garbage-submission", "missing-param", "subject-without-id", "no-proof",
-	"other-tenant-audience", "empty-vp-between"}
+	"other-tenant-audience", "empty-vp-between", "revoked-credential", "wrong-audience"}
 
 // wrongAudience returns an audience that is NOT the authorization server URL of `subject`: unrelated, another tenant of
 // this node (also one whose id extends / is a prefix of this one), the URL extended (suffix, trailing slash, path,
@@ -1604,6 +1639,29 @@ func (g *c02Gen) wrongAudience(subject string) string {
 	}
 	variants = append(variants, others...)
 	return variants[g.rng.Intn(len(variants))]
+}
+
+// otherHolder: a different DID; the one that extends / is a prefix of `holder` is preferred
+func (g *c02Gen) otherHolder(holder string) string {
+	var l []string
+	for _, h := range c02Holders {
+		if h != holder {
+			l = append(l, h)
+			if strings.HasPrefix(h, holder) || strings.HasPrefix(holder, h) {
+				l = append(l, h, h, h)
+			}
+		}
+	}
+	return l[g.rng.Intn(len(l))]
+}
+
+// nearMiss returns a string that is not `s` but close to it: extended, a proper prefix, other case, padded
+func (g *c02Gen) nearMiss(s string) string {
+	v := []string{s + "x", s + "0", s + " ", " " + s, strings.ToUpper(s), s + "/", s + " " + s}
+	if len(s) > 1 {
+		v = append(v, s[:len(s)-1], s[1:])
+	}
+	return v[g.rng.Intn(len(v))]
 }
 
 func (g *c02Gen) scopeDefs(scope string) []c02Def {
@@ -1648,10 +1706,7 @@ func (g *c02Gen) s2sRequest(defects []string, now int64) c02Op {
 			vps = append(vps, extra)
 		}
 	}
-	other := c02Holders[0]
-	if other == holder {
-		other = c02Holders[1]
-	}
+	other := g.otherHolder(holder)
 	m := &vps[mainIdx]
 	expectPex := true
 	if has("wrong-audience") {
@@ -1722,6 +1777,9 @@ func (g *c02Gen) s2sRequest(defects []string, now int64) c02Op {
 	if has("verify-fails") {
 		vps[g.rng.Intn(len(vps))].Verifies = false
 	}
+	if has("revoked-credential") {
+		vps[g.rng.Intn(len(vps))].VCRevoked = true
+	}
 	if has("no-proof") {
 		m.NoProof = true
 	}
@@ -1756,12 +1814,28 @@ func (g *c02Gen) s2sRequest(defects []string, now int64) c02Op {
 		if foreign == "" {
 			foreign = "pd-unknown"
 		}
+		if g.rng.Intn(2) == 0 {
+			foreign = g.nearMiss(d.ID)
+			for _, x := range pol.Defs {
+				if x.ID == foreign {
+					foreign = "pd-unknown"
+				}
+			}
+		}
 		sub = strings.Replace(sub, fmt.Sprintf(`"definition_id":%q`, d.ID), fmt.Sprintf(`"definition_id":%q`, foreign), 1)
 		target = c02Def{ID: foreign, Key: -1}
 	}
 	if has("wrong-scope") {
-		if g.rng.Intn(2) == 0 {
+		if r := g.rng.Intn(3); r == 0 {
 			scope = "nope"
+		} else if r == 1 {
+			// near misses of a configured scope, two scopes at once
+			scope = g.nearMiss(scope)
+			for _, p := range g.policy {
+				if p.Scope == scope {
+					scope = "nope"
+				}
+			}
 		} else {
 			// another configured scope whose mapping does not contain the fulfilled definition
 			for _, p := range g.policy {
@@ -2116,6 +2190,11 @@ func TestVerifC02(t *testing.T) {
 				switch {
 				case len(g.issued) > 0 && rng.Intn(10) < 8:
 					op.Token = g.issued[rng.Intn(len(g.issued))]
+				case len(g.codes) > 0 && rng.Intn(3) == 0:
+					op.Token = g.codes[rng.Intn(len(g.codes))].Name // a value of another store
+				case len(g.sessions) > 0 && rng.Intn(3) == 0:
+					sess := g.sessions[rng.Intn(len(g.sessions))]
+					op.Token = sess.Nonces[rng.Intn(len(sess.Nonces))]
 				case rng.Intn(2) == 0:
 					op.Token = "bogus-token"
 				default:
